@@ -18,7 +18,7 @@ func init() {
 		Level: "exploration",
 		Rule: "record cases: random (pos, flags, CIGAR over M I D N S H P = X and B, op lengths up to 2^28-1, positions biased to bin edges) compared with oracle/cigar.go (SAMv1 1.4.6/4.2.1) for End, Len, Lengths, IsValid and Bin. " +
 			"bin cases: internal.BinFor/OverlappingBinsFor and csi reg2bin/reg2bins (through the verif re-exports) compared with (a) the C functions of SAMv1 5.3 / CSIv1 transliterated and (b) a shift-free definition of the scheme (smallest containing bin; exactly the set of intersecting bins: no duplicates, all intersect, count equal), plus the direct clause 'A overlaps B => bin(A) in bins(B)'. " +
-			"quick: level-edge tile pairs and random intervals; thorough: BinFor exhaustively over all 2^15x2^15/2 (begin tile, end tile) pairs x 4 in-tile offset corners, OverlappingBinsFor exhaustively for spans <= 64 tiles and sampled above; CSI exhaustively over all intervals of geometries (1,1),(1,2),(2,2),(3,2),(1,3), sampled for (14,5),(14,6),(12,4),(10,3). " +
+			"quick: level-edge tile pairs and random intervals; thorough: BinFor exhaustively over all 2^15x2^15/2 (begin tile, end tile) pairs x 4 in-tile offset corners, OverlappingBinsFor exhaustively for spans <= 64 tiles and sampled above; CSI exhaustively over all intervals of geometries (1,1),(1,2),(2,2),(3,2),(1,3), sampled for (14,5),(14,6),(12,4),(10,3),(6,2),(4,2) and the >32-bit coordinate geometries (14,7),(12,8),(16,6),(10,9),(20,7). " +
 			"distinct_nontrivial counts distinct intervals/records in partitioning cases; an interval is non-trivial when it crosses at least one finest-level boundary or a record has >= 2 CIGAR ops.",
 		Floor:       map[string]int{"quick": 20000, "thorough": 1000000},
 		Plan:        c16Plan,
@@ -59,7 +59,7 @@ func c16Plan(seed int64, tier string) []core.Case {
 	} else {
 		cs = append(cs, core.Case{Kind: "csi-pairs", P: map[string]int64{"m": 1, "d": 1}})
 	}
-	big := [][2]int64{{14, 5}, {14, 6}, {12, 4}, {10, 3}, {6, 2}, {4, 2}}
+	big := [][2]int64{{14, 5}, {14, 6}, {12, 4}, {10, 3}, {6, 2}, {4, 2}, {14, 7}, {12, 8}, {16, 6}, {10, 9}, {20, 7}}
 	for _, g := range big {
 		for i := 0; i < nrand/8+1; i++ {
 			cs = append(cs, core.Case{Kind: "csi-random", Seed: core.SubSeed(seed, "csir", g, i), P: map[string]int64{"m": g[0], "d": g[1], "n": 40000}})
